@@ -22,7 +22,10 @@ import (
 	"errors"
 	"fmt"
 	"reflect"
+	"runtime/debug"
 	"sync"
+
+	"github.com/cloudwego/eino/internal/safe"
 )
 
 type chanCall struct {
@@ -112,6 +115,14 @@ func (r *runner) run(ctx context.Context, isStream bool, input any, opts ...Opti
 			ctx, err = onGraphError(ctx, err)
 		} else {
 			ctx, result = onGraphEnd(ctx, result, isStream)
+		}
+	}()
+	// user code that runs on the run loop itself (state handlers, branch conditions, edge handlers) may panic: the run
+	// fails with an error then, like it does for a panic inside a node
+	defer func() {
+		if panicInfo := recover(); panicInfo != nil {
+			result = nil
+			err = newGraphRunError(safe.NewPanicErr(panicInfo, debug.Stack()))
 		}
 	}()
 	var runWrapper runnableCallWrapper
